@@ -59,30 +59,14 @@ Theorem C15_closed_v0_load :
 Proof. intro sh. apply closedb_elim. exact (v0_load_closed sh). Qed.
 Print Assumptions C15_closed_v0_load.
 
-(* default-engine / EnvWizard dump.  MISSING: the shape "catch-all field with a default
-   under Meta.skip_defaults_if" (v0d_unsafe), where the generator really emits a name it
-   does not bind (next theorem) — finding C15c. *)
-Theorem C15_closed_v0_dump_partial :
-  forall sh : v0d_shape, v0d_unsafe sh = false ->
+(* default-engine / EnvWizard dump (after the repair of F38 / C15c: the default of a
+   catch-all field is always passed into the closure) *)
+Theorem C15_closed_v0_dump :
+  forall sh : v0d_shape,
     incl (free_names (v0_dump_fn sh)) (allowed [] (v0_dump_fn sh)) /\
     incl (e_loads (fn_header (v0_dump_fn sh))) (allowed [] (v0_dump_fn sh)).
-Proof. intros sh H. apply closedb_elim. exact (v0_dump_closed sh H). Qed.
-Print Assumptions C15_closed_v0_dump_partial.
-Example C15_closed_v0_dump_partial_ex :
-  v0d_unsafe {| d_fields := [ {| df_name := S "x"; df_has_default := true; df_key := DKey (S "a'b"); df_skip := SkClosure |};
-                              {| df_name := S "rest"; df_has_default := true; df_key := DCatchAll; df_skip := SkNone |} ];
-                d_env := false; d_pre := true; d_meta_skip := SkTruthy; d_skip_defaults_if := SkNone;
-                d_tag := Some (S "__tag__", S "T") |} = false.
-Proof. reflexivity. Qed.
-
-Theorem C15_v0_dump_refuted_unbound_default :
-  exists sh, v0d_unsafe sh = true /\
-             In (S "_default_1") (free_names (v0_dump_fn sh)) /\
-             ~ In (S "_default_1") (allowed [] (v0_dump_fn sh)).
-Proof.
-  exists v0d_witness. destruct v0_dump_refuted as (H1 & _ & H3 & H4). auto.
-Qed.
-Print Assumptions C15_v0_dump_refuted_unbound_default.
+Proof. intro sh. apply closedb_elim. exact (v0_dump_closed sh). Qed.
+Print Assumptions C15_closed_v0_dump.
 
 (* EnvWizard __init__ and dict *)
 Theorem C15_closed_env :
@@ -133,7 +117,7 @@ Print Assumptions C15_index_names_injective.
    aliases / tags leaves the identifiers of the dump function unchanged. *)
 Theorem C15_v0_dump_rename_invariant :
   forall sh : v0d_shape,
-    (v0d_unsafe sh = false -> incl (s_loads (v0d_body sh)) (v0d_pool sh)) /\
+    incl (s_loads (v0d_body sh)) (v0d_pool sh) /\
     (forall x, In x (v0d_pool sh) -> In x v0d_fixed_names \/ index_based x) /\
     (forall x, index_based x -> ~ In x v0d_fixed_names).
 Proof.
